@@ -47,6 +47,11 @@ class C05(Property):
     min_nontrivial = {"quick": 40, "thorough": 1500}
 
     def gen(self, rnd, i, tier):
+        if i % 6 == 5:
+            spec = gen_coupling.gen_two_way(rnd)
+            spec["fault"] = None
+            spec["perms"] = gen_coupling.permutations_of(spec, rnd, max_orders=24 if tier == "thorough" else 12)
+            return spec
         spec = gen_coupling.gen_dag(rnd, cycle="sufficient" if rnd.random() < 0.25 else None, max_comps=4 if rnd.random() < 0.8 else 5)
         for ln in spec["links"]:
             ln["chain"] = [a for a in ln["chain"] if a[0] != "dpush"]
@@ -63,6 +68,11 @@ class C05(Property):
             if ln["src"][0].startswith("p") and len(ln["chain"]) == 1 and ln["chain"][0][0] == "dfix" and byname[ln["dst"][0]]["type"] == "time":
                 if any(l2 is not ln and l2["src"][0] == ln["src"][0] and l2["dst"][0] == ln["dst"][0] for l2 in spec["links"]):
                     ln["chain"][0][1] = min(ln["chain"][0][1], min(byname[ln["dst"][0]]["steps"]))
+        # initial state derived from pulled inputs: iterative connect with real data dependencies
+        # (in cyclic specs this may form a genuine connect cycle: then every order must report it)
+        for c in spec["comps"]:
+            if c["type"] == "time" and c["nin"] and c.get("initial_pull") and rnd.random() < 0.5:
+                c["push_deps"] = sorted(rnd.sample(range(c["nin"]), rnd.randint(1, c["nin"])))
         fault = None
         r = rnd.random()
         tc = [c for c in spec["comps"] if c["type"] == "time" and c["nin"] > 0]
